@@ -622,6 +622,21 @@ struct Sim {
         } else if (via == 2) {
             r.sub = LookupSubNet(text + "/" + MaskText(ma.net, prefix));
             Pr(P_subnet_from_netmask_string);
+            // a netmask that is not a prefix (a one after a zero) denotes no subnet and must be refused
+            if (bits >= 3) {
+                Bytes m(ma.net == F_V4 ? 4 : 16, 0);
+                for (int i = 0; i < prefix; ++i) SetBit(m, i, 1);
+                const uint64_t h = mix64((uint64_t)op.arg(prefix_arg) * 2654435761ULL + (uint64_t)prefix, (uint64_t)op.arg(via_arg));
+                bool made = false;
+                if ((h & 1) && prefix >= 2) { SetBit(m, (int)((h >> 8) % (uint64_t)(prefix - 1)), 0); made = true; }            // hole inside the ones
+                else if (prefix >= 1 && prefix <= bits - 2) { SetBit(m, prefix + 1 + (int)((h >> 8) % (uint64_t)(bits - prefix - 1)), 1); made = true; } // stray one after the zeros
+                else if (prefix >= 2) { SetBit(m, (int)((h >> 8) % (uint64_t)(prefix - 1)), 0); made = true; }
+                if (made) {
+                    const std::string bad = ma.net == F_V4 ? V4Text(m) : V6Text(m, false);
+                    CSubNet nb = LookupSubNet(text + "/" + bad);
+                    if (nb.IsValid()) ctx.failf("non-prefix-netmask-accepted", "\"%s/%s\" (netmask with a one after a zero) was accepted as subnet %s", text.c_str(), bad.c_str(), nb.ToString().c_str());
+                }
+            }
         } else if (via == 3) {
             r.sub = CSubNet(av->second, (uint8_t)prefix);
         } else {
